@@ -37,6 +37,10 @@ func (m *TN93Model) Distance(seq1 []uint8, seq2 []uint8, weights []float64) (flo
 
 	trS, trV, p1, p2, total := countMutations(seq1, seq2, m.selectedSites, weights)
 	trS, trV, p1, p2 = trS/total, trV/total, p1/total, p2/total
+	// no counted difference: distance 0, also when an absent base makes a product of frequencies 0 (0/0 below)
+	if trS == 0 && trV == 0 && p1 == 0 && p2 == 0 {
+		return 0, nil
+	}
 
 	piy := m.pi[1] + m.pi[3]
 	pir := m.pi[0] + m.pi[2]
